@@ -12,7 +12,7 @@ from props import c03
 PROPERTY = 'C14'
 LEVEL = 'exploration'
 RULE = ('Hypothesis rule-based state machine. State: a pool of trees (fixed seeds covering every array-elision form, '
-        'comments, obfuscatable scopes, plus G1 programs added by a rule, some parsed with comment capture) and a pool '
+        'comments, obfuscatable scopes, plus G1 programs added by a rule, some parsed with comment capture, every other one carrying a sourcepath) and a pool '
         'of printer objects (pretty with drawn indent, all 16 minify flag combinations, Unparser(rules=(obfuscate, '
         'indent)), default Unparser, and Unparsers that share rule objects: one minify / indent / obfuscate rule configuring several of them, also under instance-level layout handlers; the model printer of such a configuration is built from private rule objects). Rules: print_full(printer, tree); print_abandon(printer, tree, k) (k fragments, '
         'then the generator is closed or dropped); print_raising(printer) (a tree holding a node kind without '
@@ -98,6 +98,12 @@ def make_printer(cfg, fresh=False):
                                            reserved_keywords=Lexer.keywords_dict.keys()), rules.indent('  ')))
 
 
+def label_tree(tree, src):
+    """every other tree carries a sourcepath, as one read from a named stream does"""
+    if len(src) % 2:
+        tree.sourcepath = 'src/file%d.js' % (len(src) % 7)
+
+
 def fingerprint(node, _depth=0):
     """deep, identity-free fingerprint of a tree: class names and every attribute"""
     from calmjs.parse.asttypes import Node
@@ -171,6 +177,7 @@ class World(object):
             t = self.parse(src, with_comments=wc)
         except Exception:
             return
+        label_tree(t, src)
         self.trees.append(((src, wc), t, fingerprint(t)))
 
     def new_printer(self, ci, record=True):
@@ -380,6 +387,7 @@ for si, (src, wc) in enumerate(c14.SEED_SOURCES):
         # one fresh tree and one fresh printer per pair; earlier pairs of this child only printed
         # through printers of their own
         t = parse(src, with_comments=wc)
+        c14.label_tree(t, src)
         out.append([si, ci, [c14.jsonable(f) for f in c14.make_printer(cfg, fresh=True)(t)]])
 print(json.dumps(out))
 '''
